@@ -818,6 +818,20 @@ fn parse_export_ext<'a>(input: &'a [u8], cache: &AtomCache) -> NomResult<'a, Own
     ))
 }
 
+/// OldIndex and OldUniq of NEW_FUN_EXT are 32-bit unsigned values; the encoder writes
+/// values above `i32::MAX` as SMALL_BIG_EXT, which comes back as a `BigInt`.
+fn fun_u32_field(term: &OwnedTerm) -> Option<u32> {
+    match term {
+        OwnedTerm::Integer(i) => u32::try_from(*i).ok(),
+        OwnedTerm::BigInt(big) if big.sign.is_positive() && big.digits.len() <= 4 => {
+            let mut bytes = [0u8; 4];
+            bytes[..big.digits.len()].copy_from_slice(&big.digits);
+            Some(u32::from_le_bytes(bytes))
+        }
+        _ => None,
+    }
+}
+
 fn parse_new_fun_ext<'a>(input: &'a [u8], cache: &AtomCache) -> NomResult<'a, OwnedTerm> {
     let (input, _size) = be_u32(input)?;
     let (input, arity) = be_u8(input)?;
@@ -832,15 +846,15 @@ fn parse_new_fun_ext<'a>(input: &'a [u8], cache: &AtomCache) -> NomResult<'a, Ow
     };
 
     let (input, old_index_term) = parse_term(input, cache)?;
-    let old_index = match old_index_term {
-        OwnedTerm::Integer(i) if i >= 0 => i as u32,
-        _ => return Err(nom::Err::Failure(NomError::new(input, ErrorKind::Tag))),
+    let old_index = match fun_u32_field(&old_index_term) {
+        Some(i) => i,
+        None => return Err(nom::Err::Failure(NomError::new(input, ErrorKind::Tag))),
     };
 
     let (input, old_uniq_term) = parse_term(input, cache)?;
-    let old_uniq = match old_uniq_term {
-        OwnedTerm::Integer(i) if i >= 0 => i as u32,
-        _ => return Err(nom::Err::Failure(NomError::new(input, ErrorKind::Tag))),
+    let old_uniq = match fun_u32_field(&old_uniq_term) {
+        Some(i) => i,
+        None => return Err(nom::Err::Failure(NomError::new(input, ErrorKind::Tag))),
     };
 
     let (input, pid_term) = parse_term(input, cache)?;
@@ -1305,15 +1319,15 @@ fn parse_new_fun_ext_borrowed<'a>(
     };
 
     let (input, old_index_term) = parse_term_borrowed(input, original_len, ctx)?;
-    let old_index = match old_index_term {
-        BorrowedTerm::Integer(i) if i >= 0 => i as u32,
-        _ => return Err(nom::Err::Failure(NomError::new(input, ErrorKind::Tag))),
+    let old_index = match fun_u32_field(&old_index_term.to_owned()) {
+        Some(i) => i,
+        None => return Err(nom::Err::Failure(NomError::new(input, ErrorKind::Tag))),
     };
 
     let (input, old_uniq_term) = parse_term_borrowed(input, original_len, ctx)?;
-    let old_uniq = match old_uniq_term {
-        BorrowedTerm::Integer(i) if i >= 0 => i as u32,
-        _ => return Err(nom::Err::Failure(NomError::new(input, ErrorKind::Tag))),
+    let old_uniq = match fun_u32_field(&old_uniq_term.to_owned()) {
+        Some(i) => i,
+        None => return Err(nom::Err::Failure(NomError::new(input, ErrorKind::Tag))),
     };
 
     let (input, pid_term) = parse_term_borrowed(input, original_len, ctx)?;
